@@ -221,6 +221,20 @@ impl SendBuffer {
     }
 }
 
+#[cfg(feature = "quinn_rs_quinn_verif")]
+impl SendBuffer {
+    /// (offset, unacked_len, unsent, acks, retransmits) for the `streams` executor
+    pub(super) fn verif_view(&self) -> (u64, u64, u64, Vec<(u64, u64)>, Vec<(u64, u64)>) {
+        (
+            self.offset,
+            self.unacked_len as u64,
+            self.unsent,
+            self.acks.iter().map(|r| (r.start, r.end)).collect(),
+            self.retransmits.iter().map(|r| (r.start, r.end)).collect(),
+        )
+    }
+}
+
 #[cfg(test)]
 mod tests {
     use super::*;
